@@ -812,5 +812,126 @@ theorem trim_refuses (pp : UParams F) (s : Nat) (h : s > pp.maxDegree) :
 
 end Setup
 
+/-! ### what an answer of `check` / `batch_check` implies; linearity of the accumulation -/
+
+section Answers
+variable [DecidableEq F]
+
+/-- an answer of `check` means: one witness per key variable, the accumulation ran, the index
+ranges were respected, and the answer is whether the defect vanishes -/
+theorem check_ok_inv (vk : VK F) (cs z vs : List F) (π : Proof F) (ξs : List F) (b : Bool)
+    (h : check vk cs z vs π ξs = .ok b) :
+    π.w.length = vk.numVars ∧ ∃ a, accumulate 0 0 cs vs ξs = .ok a
+      ∧ π.w.length ≤ vk.betaH.length ∧ π.w.length ≤ z.length
+      ∧ b = decide (defectCombined vk a.1 a.2.1 z π = 0) := by
+  have hnv := check_ok_length vk cs z vs π ξs b h
+  refine ⟨hnv, ?_⟩
+  unfold check at h
+  rw [if_neg (not_not.mpr hnv)] at h
+  cases ha : accumulate 0 0 cs vs ξs with
+  | error e => rw [ha] at h; cases h
+  | ok a =>
+    rw [ha] at h
+    simp only at h
+    split at h
+    · cases h
+    · rename_i hl
+      injection h with h
+      exact ⟨a, rfl, by omega, by omega, h.symm⟩
+
+/-- the accumulation does not read the proof: it is the same for every proof -/
+theorem check_same_acc (vk : VK F) (cs z vs : List F) (π π' : Proof F) (ξs : List F) (b : Bool)
+    (h : check vk cs z vs π ξs = .ok b) (hw : π'.w.length = π.w.length) :
+    ∃ a, accumulate 0 0 cs vs ξs = .ok a ∧ b = decide (defectCombined vk a.1 a.2.1 z π = 0)
+      ∧ check vk cs z vs π' ξs = .ok (decide (defectCombined vk a.1 a.2.1 z π' = 0)) := by
+  obtain ⟨hnv, a, ha, h1, h2, hb⟩ := check_ok_inv vk cs z vs π ξs b h
+  refine ⟨a, ha, hb, ?_⟩
+  unfold check
+  rw [if_neg (not_not.mpr (by rw [hw]; exact hnv)), ha]
+  simp only
+  rw [if_neg (by rw [hw]; omega)]
+
+theorem batchDefect_wrong_count (vk : VK F) (cs : List F) (zs : List (List F)) (vs : List F)
+    (πs : List (Proof F)) (rs : List F) (h : πs.length ≠ zs.length) :
+    batchDefect vk cs zs vs πs rs = .error .abort := by
+  unfold batchDefect; rw [if_pos h]
+
+theorem batchDefect_wrong_witness_count (vk : VK F) (cs : List F) (zs : List (List F))
+    (vs : List F) (πs : List (Proof F)) (rs : List F) (hl : πs.length = zs.length)
+    (π : Proof F) (hπ : π ∈ πs) (hw : π.w.length ≠ vk.numVars) :
+    batchDefect vk cs zs vs πs rs = .error .incorrectInputLength := by
+  unfold batchDefect
+  rw [if_neg (not_not.mpr hl)]
+  have : πs.any (fun π => decide (π.w.length ≠ vk.numVars)) = true :=
+    List.any_eq_true.2 ⟨π, hπ, by simpa using hw⟩
+  rw [if_pos this]
+
+/-- an answer of `batch_check` means: one proof per point, every proof with one witness per key
+variable -/
+theorem batchCheck_ok_inv (vk : VK F) (cs : List F) (zs : List (List F)) (vs : List F)
+    (πs : List (Proof F)) (rs : List F) (b : Bool) (h : batchCheck vk cs zs vs πs rs = .ok b) :
+    πs.length = zs.length ∧ ∀ π ∈ πs, π.w.length = vk.numVars := by
+  unfold batchCheck at h
+  by_cases hl : πs.length = zs.length
+  · refine ⟨hl, ?_⟩
+    intro π hπ
+    by_contra hw
+    rw [batchDefect_wrong_witness_count vk cs zs vs πs rs hl π hπ hw] at h
+    cases h
+  · rw [batchDefect_wrong_count vk cs zs vs πs rs hl] at h
+    cases h
+
+/-- **the accumulation is linear** in (commitments, values): moving them by `(dcs, dvs)` moves the
+result by the accumulation of the differences under the same challenges -/
+theorem accumulate_add (ca va da db : F) (cs vs dcs dvs ξs : List F)
+    (hl1 : dcs.length = cs.length) (hl2 : dvs.length = vs.length)
+    (out : F × F × List F) (h : accumulate ca va cs vs ξs = .ok out)
+    (dout : F × F × List F) (hd : accumulate da db dcs dvs ξs = .ok dout) :
+    accumulate (ca + da) (va + db) (List.zipWith (· + ·) cs dcs) (List.zipWith (· + ·) vs dvs) ξs
+      = .ok (out.1 + dout.1, out.2.1 + dout.2.1, out.2.2) ∧ dout.2.2 = out.2.2 := by
+  induction cs generalizing ca va da db vs dcs dvs ξs with
+  | nil =>
+    cases dcs with
+    | nil =>
+      simp only [accumulate] at h hd
+      injection h with h; injection hd with hd
+      subst h; subst hd
+      simp [accumulate]
+    | cons _ _ => simp at hl1
+  | cons c cs ih =>
+    cases dcs with
+    | nil => simp at hl1
+    | cons dc dcs =>
+      cases vs with
+      | nil =>
+        cases dvs with
+        | nil =>
+          simp only [accumulate] at h hd
+          injection h with h; injection hd with hd
+          subst h; subst hd
+          simp [accumulate]
+        | cons _ _ => simp at hl2
+      | cons v vs =>
+        cases dvs with
+        | nil => simp at hl2
+        | cons dv dvs =>
+          cases ξs with
+          | nil => simp [accumulate] at h
+          | cons ξ ξs =>
+            simp only [accumulate] at h hd
+            have := ih (ca + c * ξ) (va + v * ξ) (da + dc * ξ) (db + dv * ξ) vs dcs dvs ξs
+              (by simpa using hl1) (by simpa using hl2) h hd
+            simp only [List.zipWith_cons_cons, accumulate]
+            have e1 : ca + da + (c + dc) * ξ = ca + c * ξ + (da + dc * ξ) := by ring
+            have e2 : va + db + (v + dv) * ξ = va + v * ξ + (db + dv * ξ) := by ring
+            rw [e1, e2]
+            exact this
+
+theorem decide_shift_false (D s : F) (h0 : D = 0) (hs : s ≠ 0) : decide (D + s = 0) = false := by
+  rw [decide_eq_false_iff_not, h0, zero_add]
+  exact hs
+
+end Answers
+
 end PST
 end PCV
